@@ -159,7 +159,7 @@ func RunOwnRace(c OwnRaceCase, out *Outcome) {
 		seq, _, _, _ := h.OwnLSP()
 		// a negative decision gets a real-time grace period: a pending regeneration only needs the updater
 		// goroutine to be scheduled
-		for i := 0; i < 2000 && seq <= maxRx; i++ {
+		for i := 0; i < 500 && seq <= maxRx; i++ {
 			time.Sleep(time.Millisecond)
 			seq, _, _, _ = h.OwnLSP()
 		}
